@@ -365,6 +365,16 @@ fn gr_step(pre: u8, kin: u8) -> (K, K) {
             "C10-KF1: GR-only families keep stale routes after restart-timer expiry when LLGR takes over"
         );
         assert!(leak & !gr_only == 0);
+    } else if kin == 1 && k0 == K::Restarting && pre_llgr != 0 {
+        // role of known finding C10-KF2: families that negotiated LLGR but not GR are retained
+        // at disconnect (families_to_drop_on_disconnect) yet are not re-negotiated at a
+        // reconnect during the restart period
+        let llgr_only = pre_llgr & !pre_stale_fams;
+        assert!(
+            leak & llgr_only == 0,
+            "C10-KF2: LLGR-only families retained at disconnect are left uncovered by a reconnect during the restart period"
+        );
+        assert!(leak & !llgr_only == 0);
     } else {
         assert!(leak == 0);
     }
